@@ -466,3 +466,96 @@ pub const DE_TYPE_NAMES: &[&str] = &[
     "arr2(i32)", "arr3(i32)", "arr3(opt(bool))", "arr2(vec(i32))", "arr32(i32)", "vec(tup(i32,str))",
     "bmap(i32)", "bmap(vec(str))", "vec(u8)", "vec(i64)", "map(u16)", "opt(i8)",
 ];
+
+
+// ------------------------------------------------------------------ large values (oracle leg only)
+
+/// Round trip of one large value through the real typed layer: serialise, compare the output with
+/// serde's JSON, hand the output back as input, deserialise, compare with the original. These sizes
+/// are beyond what the (quadratic) model driver replays in a quick run; the theorem covers every
+/// size, the tie at these sizes is this oracle. Returns a description of the failure, if any.
+fn big_rt<T>(name: &str, v: &T, expect: serde_json::Value) -> Option<String>
+where
+    T: Serialize + Deserialize + PartialEq,
+{
+    prov::initialize_from_msgpack_bytes(vec![0xc0]);
+    let mut c = api::Context;
+    if let Err(e) = v.serialize(&mut c) {
+        return Some(format!("{}: serialize failed with status {}", name, write_err_code(&e)));
+    }
+    let (fst, fbytes) = prov::write::shopify_function_output_finalize_and_return_msgpack_bytes();
+    let fst = fst as usize;
+    if fst != 0 {
+        return Some(format!("{}: output not complete (status {})", name, fst));
+    }
+    match api::Context.finalize_output_and_return() {
+        Ok(j) if j == expect => {}
+        Ok(_) => return Some(format!("{}: serialised document is not serde's JSON value", name)),
+        Err(_) => return Some(format!("{}: serialised document undecodable", name)),
+    }
+    prov::initialize_from_msgpack_bytes(fbytes);
+    let root = api::Value::verif_from_bits(prov::read::shopify_function_input_get());
+    match T::deserialize(&root) {
+        Ok(back) if back == *v => None,
+        Ok(_) => Some(format!("{}: deserialised value differs from the original", name)),
+        Err(_) => Some(format!("{}: deserialising the serialised value is an error", name)),
+    }
+}
+
+/// lengths around the points where a size-dependent shortcut could sit: header widths, powers of
+/// two, and 2^20 bytes' worth of elements for the element sizes that occur
+pub fn big_roundtrips(thorough: bool) -> (usize, Vec<String>) {
+    let mut fails = Vec::new();
+    let mut n_run = 0usize;
+    let mut lens: Vec<usize> = vec![16384, 21846, 43691, 65536, 65537, 131073, 262145];
+    if thorough {
+        lens.extend_from_slice(&[16383, 32769, 87382, 100000, 524289, 1048577, 2097153]);
+    }
+    for &n in &lens {
+        let ints: Vec<i32> = (0..n).map(|i| (i as i32).wrapping_mul(7919) - 1000).collect();
+        let mut run = |r: Option<String>| {
+            n_run += 1;
+            if let Some(f) = r {
+                fails.push(format!("n={} {}", n, f));
+            }
+        };
+        macro_rules! big_rt {
+            ($name:expr, $v:expr) => {{
+                let v = $v;
+                big_rt($name, v, serde_json::to_value(v).unwrap_or(serde_json::Value::Null))
+            }};
+        }
+        run(big_rt!("vec(i32)", &ints));
+        run(big_rt!("opt(vec(i32))", &Some(ints.clone())));
+        run(big_rt!("vec(f64)", &ints.iter().map(|&i| i as f64 + 0.5).collect::<Vec<f64>>()));
+        run(big_rt!("vec(opt(i32))", &ints.iter().map(|&i| if i % 3 == 0 { None } else { Some(i) }).collect::<Vec<Option<i32>>>()));
+        run(big_rt!("vec(bool)", &ints.iter().map(|&i| i % 2 == 0).collect::<Vec<bool>>()));
+        run(big_rt!("vec(unit)", &vec![(); n]));
+        let mut m: HashMap<String, Vec<i32>> = HashMap::new();
+        m.insert("k".to_string(), ints.clone());
+        m.insert("e".to_string(), Vec::new());
+        run(big_rt!("map(vec(i32))", &m));
+        if n <= 300000 {
+            let strs: Vec<String> = (0..n).map(|i| format!("s{}", i % 1000)).collect();
+            run(big_rt!("vec(str)", &strs));
+            run(big_rt!("vec(opt(str))", &strs.iter().map(|s| if s.len() == 2 { None } else { Some(s.clone()) }).collect::<Vec<Option<String>>>()));
+            run(big_rt!("vec(vec(i32))", &(0..n).map(|i| vec![i as i32; i % 3]).collect::<Vec<Vec<i32>>>()));
+            let maps: Vec<HashMap<String, i32>> = (0..n)
+                .map(|i| {
+                    let mut h = HashMap::new();
+                    if i % 2 == 1 {
+                        h.insert("a".to_string(), i as i32);
+                    }
+                    h
+                })
+                .collect();
+            run(big_rt!("vec(map(i32))", &maps));
+            let mut big: HashMap<String, i32> = HashMap::new();
+            for i in 0..n {
+                big.insert(format!("k{}", i), i as i32);
+            }
+            run(big_rt!("map(i32)", &big));
+        }
+    }
+    (n_run, fails)
+}
